@@ -803,6 +803,7 @@ def context_strategy():
             "u": st.sampled_from(["", "x", "Hello World", "<b>bold</b>", 'q"uo\'te']),
             "b": st.booleans(),
             "nn": st.none(),
+            "only": text,  # a variable that happens to be named like a flag of the tag
             "l": int_list,
             "ls": st.lists(text, max_size=3),
             "ll": st.lists(int_list, max_size=2),
@@ -1132,6 +1133,8 @@ def args_strategy(depth=3, max_attrs=5):
         st.tuples(plain_key, val).map(lambda kv: {"t": "kw", "k": kv[0], "v": kv[1]}),
         st.tuples(plain_key, val).map(lambda kv: {"t": "kw", "k": kv[0], "v": kv[1]}),
         st.tuples(agg_key, val).map(lambda kv: {"t": "kw", "k": kv[0], "v": kv[1]}),
+        # keyword whose VALUE is a variable named like a flag (`data=only`): still a keyword argument
+        plain_key.map(lambda k: {"t": "kw", "k": k, "v": {"t": "leaf", "b": {"t": "var", "p": "only"}, "f": []}}),
         _spread_leaf(LIST_PATHS).map(lambda lf: {"t": "sp", "tok": "...", "v": lf}),
         _spread_leaf(DICT_PATHS).map(lambda lf: {"t": "sp", "tok": "...", "v": lf}),
     )
